@@ -87,10 +87,14 @@ def main():
         if only and pid not in only:
             continue
         used = []
-        for d in sorted(glob.glob(os.path.join(root, "seeded", pid + "*"))):
+        for d in sorted(glob.glob(os.path.join(root, "seeded", "*"))):
             try:
                 m = json.load(open(os.path.join(d, "meta.json")))
             except Exception:
+                continue
+            base = os.path.basename(d)
+            # property waves are named <ID>[-n]; area waves carry the property their author named in meta.json
+            if not (base.split("-")[0] == pid or (base[0] in "AB" and str(m.get("property", "")).strip() == pid)):
                 continue
             files = ", ".join(m.get("files", [])) if isinstance(m.get("files"), list) else str(m.get("files"))
             used.append(f"* [{files}] {str(m.get('breaks',''))[:420]}")
@@ -98,6 +102,8 @@ def main():
                 f"Why the existing tests cannot settle it: {p['why_tests_cant']}\n\nWhere it lives: files {', '.join(p['anchors']['files'])}; "
                 f"mechanisms: " + "; ".join(f"{m['name']} ({m['where']})" for m in p['anchors']['mechanism']))
         st = STEER5 if tag.startswith("seed5") else STEER6 if tag.startswith("seed6") else STEER7 if tag.startswith("seed7") else None
+        if tag.startswith("seed10"):
+            st = {k: "whatever the earlier changes left untouched. Favour changes that need a history of three or more operations, or two cooperating edits in different files, or a configuration that is legal but unusual (tick spacings that are not powers of two, reward index 2, several pools of one config, Token-2022 mints with several extensions, positions whose bounds lie in different tick arrays or on array edges, adaptive-fee pools far from tick 0)" for k in STEER7}
         steer = f"Preferably look at parts of the behaviour that none of these touched, for instance: {st[pid]}." if st else ""
         out = (brief.replace("{dir}", f"/tmp/{tag}_{pid}").replace("{property}", text).replace("{used}", "\n".join(used) or "(none)")
                .replace("{steer}", steer).replace("{id}", pid))
